@@ -283,6 +283,8 @@ class CallMixin:
             post.pc = list(st.pc)
         else:
             res = NoneV()
+        for gname, gts in c.ghost_out.items():
+            post.locals[gname] = self.fresh_val('go_' + gname, parse_type(gts), st)
         for e in c.ensures:
             st.assume(self.spec_bool(e, post, sub))
         yield st, res
